@@ -62,9 +62,12 @@ def _history(draw):
     ops = []
     fr = st.sampled_from([0.01, -0.02, 0.03, 0.5, 1.5, 2.0, -1.0, 1.0, 0.25, 0.002])
     for _ in range(draw(st.integers(2, 6))):
-        kind = draw(st.sampled_from(["integrate", "integrate", "integrate_to", "set_tf", "set_tf", "set_dt"]))
+        kind = draw(st.sampled_from(["integrate", "integrate", "integrate_to", "set_tf", "set_tf", "set_dt", "integrate_to_fault"]))
         if kind == "integrate":
             ops.append([kind])
+        elif kind == "integrate_to_fault":
+            # integrate(t) during whose LAST (clipped) step the right-hand side raises, at its k-th evaluation inside that step
+            ops.append([kind, draw(fr), draw(st.integers(1, 4))])
         elif kind == "set_dt":
             ops.append([kind, draw(st.sampled_from([0.5, 2.0, 0.3]))])
         else:
@@ -91,7 +94,21 @@ def _check_history(case):
     t0, span = case["t0"], case["tf"] - case["t0"]
     eps = float(np.finfo(np.float64).eps)
     labels = ["history:" + fam]
-    a, f, y0 = traj.make_system(case)
+    armed = {}
+
+    class Boom(Exception):
+        pass
+
+    def wrapper(rhs):
+        def wrapped(t, y, **kw):
+            if armed and armed["lo"] <= float(t) <= armed["hi"]:
+                armed["k"] -= 1
+                if armed["k"] <= 0:
+                    armed.clear()
+                    raise Boom("injected in the clipped last step")
+            return rhs(t, y, **kw)
+        return wrapped
+    a, f, y0 = traj.make_system(case, rhs_wrapper=wrapper)
     Dreq = abs(case["dt"])
     viols = []
     moved_then_tf = False
@@ -129,7 +146,37 @@ def _check_history(case):
             labels.append("skipped:long_call")
             break
         n_before = len(a)
-        err = traj.run_integrate(a, None if kind == "integrate" else np.float64(target), step_limit=n_before + need)
+        if kind == "integrate_to_fault":
+            nfull = int(math.floor(dist / Dreq + 1e-9))
+            rem = dist - nfull * Dreq
+            sg = 1.0 if target > cur else -1.0
+            # (only where the model is unambiguous: a remainder clearly between nothing and a whole step, and a method whose stage
+            #  times lie inside its step - the splitting schemes have sub-steps that reach outside it)
+            if 1e-6 * Dreq < rem < (1 - 1e-6) * Dreq and fam == "explicit_fixed":
+                boundary = cur + sg * nfull * Dreq
+                armed.update(lo=min(boundary, target) - 1e-9 * Dreq + (0.02 * rem if sg > 0 else 0.0), hi=max(boundary, target) + 1e-9 * Dreq - (0.02 * rem if sg < 0 else 0.0), k=op[2])
+                err = traj.run_integrate(a, np.float64(target), step_limit=n_before + need, injected=(Boom,))
+                fired = not armed
+                armed.clear()
+                if fired and err is not None and isinstance(getattr(err, "__cause__", None), Boom):
+                    labels.append("fault_in_clipped_last_step")
+                    hist[-1] += "[raised]"
+                    t = np.asarray(a.t, dtype=np.float64)[n_before - 1:]
+                    steps = np.abs(np.diff(t))
+                    tolr = 8 * eps * max(1.0, float(np.max(np.abs(t))))
+                    if len(steps) != nfull or np.any(np.abs(steps - Dreq) > tolr):
+                        viols.append(V("prefix_after_fault", "{}: after {} the failed call kept steps {} where {} steps of {!r} were complete".format(method, hist, steps.tolist()[:8], nfull, Dreq), fam, **attrs))
+                        break
+                    continue        # the requested step is unchanged by a failed call
+                if err is None and not fired:
+                    pass            # (the armed evaluation was never made: the call completed; judged below like integrate(t))
+                elif err is not None and not isinstance(err, traj.StepCap):
+                    viols.append(V("integrate_raised", "{}: after {}: {!r} caused by {!r}".format(method, hist, err, err.__cause__), fam + exc_sig(err), **attrs))
+                    break
+            else:
+                err = traj.run_integrate(a, np.float64(target), step_limit=n_before + need)
+        else:
+            err = traj.run_integrate(a, None if kind == "integrate" else np.float64(target), step_limit=n_before + need)
         if isinstance(err, traj.StepCap):
             viols.append(V("too_many_steps", "{}: after {} the call from {!r} to {!r} recorded more than ceil(distance / requested step) + 2 = {} steps (requested step {!r}, system dt {!r})".format(
                 method, hist, cur, target, need, Dreq, float(a.dt)), fam, **attrs))
